@@ -6,7 +6,7 @@
     grammar of the property (Model/UnitGrammar.v).  [parse s = None] means "rejected with an error". *)
 From Coq Require Import List ZArith NArith QArith Bool.
 From QV Require Import Gen.UnitSyntaxGen Model.UnitSyntax Model.UnitGrammar
-     Proofs.UnitSyntaxBasics Proofs.UnitSentences Proofs.UnitReject Proofs.UnitRejectDigit.
+     Proofs.UnitSyntaxBasics Proofs.UnitSentences Proofs.UnitReject Proofs.UnitRejectDigit Proofs.UnitRejectOp.
 Import ListNotations.
 
 (** the lexer model was written for exactly the regular expressions that are in the source now *)
@@ -40,10 +40,12 @@ Theorem C12_reject_digit : forall s, digit_without_caret s -> parse s = None.
 Proof. exact reject_digit_lemma. Qed.
 Print Assumptions C12_reject_digit.
 
-(** NOT PROVED (kept visible; covered by the exhaustive correspondence and the oracle only):
-    Theorem C12_reject_operator : forall s, doubled_or_dangling_operator s -> parse s = None.
-    The rejection of a leading, trailing or doubled operator happens in the two-stack builder
-    (pop from an empty operand stack), not in the lexer. *)
+(** an explicit operator (star, slash or dot sign) at the beginning, at the end, or directly after
+    another one -- at the top level or inside brackets: rejected (by the two-stack builder, which
+    pops from an empty operand stack) *)
+Theorem C12_reject_operator : forall s, doubled_or_dangling_operator s -> parse s = None.
+Proof. exact reject_operator_lemma. Qed.
+Print Assumptions C12_reject_operator.
 
 (** non-vacuity: "kg*m^2/s^-2A(a.b)" (the dot sign inside the brackets) is a well-formed sentence,
     its reading gives s the exponent 2 and A the exponent -1; "m2", "a b", "(a))" are in the
@@ -63,7 +65,8 @@ Example C12_nonvacuous :
           ([97%N], 0 + -1 * 1); ([98%N], 0 + -1 * 1)] /\
   (exists c, In c [97; 32; 98]%N /\ allowed_char c = false) /\
   balanced [40; 97; 41; 41]%N = false /\
-  digit_without_caret [109; 50]%N.
+  digit_without_caret [109; 50]%N /\
+  doubled_or_dangling_operator [97; 42; 47; 98]%N.
 Proof.
   split.
   { unfold wf, wf_gsent, wf_term, ex_expr; simpl.
@@ -82,5 +85,6 @@ Proof.
   split; [vm_compute; reflexivity|].
   split; [exists 32%N; split; [right; left; reflexivity|reflexivity]|].
   split; [reflexivity|].
-  left. exists [], 109%N, 50%N, []. repeat split. left. reflexivity.
+  split; [left; exists [], 109%N, 50%N, []; repeat split; left; reflexivity|].
+  right. right. exists [97%N], 42%N, 47%N, [98%N]. repeat split.
 Qed.
